@@ -10,7 +10,7 @@ ENTRIES = [f"FourierFilter.{a}_using_{b}" for a in RSP for b in QSP]
 RULE = ("random physical data (g(r) with r>0, Q[S-1] with Q>0), non-zero uncertainties in 75% of cases, cutoff, material; "
         "every one of the 12 variants is run on the converted inputs and all nine outputs are converted back to (g, Q[S-1]) "
         "and compared with g_using_F; non-trivial = both uncertainties supplied and non-zero")
-DIST = ["lorch", "omitted", "unc", "qdesc"]
+DIST = ["lorch", "omitted", "unc", "qdesc", "intgrid"]
 SHRINK = None
 
 
@@ -27,6 +27,17 @@ def gen(rng, i, tier):
         # the same physical data listed from high Q to low Q (time-of-flight order): every variant must still agree
         q, f = q[::-1].copy(), f[::-1].copy()
         df = None if df is None else df[::-1].copy()
+    intgrid = None
+    if rng.random() < 0.15:
+        # abscissae that are runs of whole numbers, stored with an integer dtype (bin numbers, Q in units of the bin width)
+        intgrid = str(rng.choice(["q", "r", "both"]))
+        if intgrid in ("q", "both"):
+            q = np.arange(1, m + 1, dtype=float)
+            if desc:
+                q = q[::-1].copy()
+        if intgrid in ("r", "both"):
+            r = np.arange(1, n + 1, dtype=float)
+            cutoff = float(rng.uniform(r[1], max(r[-1] * 0.6, r[2])))
     kw = material(rng)
     if rng.random() < 0.3:
         kw["lorch"] = True
@@ -34,7 +45,7 @@ def gen(rng, i, tier):
         kw["OmittedXrangeCorrection"] = True
     return dict(r=tolist(r), g=tolist(g), q=tolist(q), f=tolist(f), dg=tolist(dg), df=tolist(df), cutoff=cutoff, kw=kw,
                 lorch=bool(kw.get("lorch")), omitted=bool(kw.get("OmittedXrangeCorrection")),
-                unc=(dg is not None and max(dg) > 0 and df is not None and max(df) > 0), qdesc=desc)
+                unc=(dg is not None and max(dg) > 0 and df is not None and max(df) > 0), qdesc=desc, intgrid=intgrid)
 
 
 def evaluate(case):
@@ -44,6 +55,10 @@ def evaluate(case):
     dg = None if case["dg"] is None else np.asarray(case["dg"], dtype=float)
     df = None if case["df"] is None else np.asarray(case["df"], dtype=float)
     cutoff = case["cutoff"]
+    if case.get("intgrid") in ("q", "both"):
+        q = q.astype(np.int64)
+    if case.get("intgrid") in ("r", "both"):
+        r = r.astype(np.int64)
     fails = []
     with np.errstate(all="ignore"):
         guard = Unchanged(r, g, q, f, dg, df)
